@@ -138,6 +138,14 @@ def run(prog, chk):
     chk.ob("R3.seek-arithmetic-and-readahead-dropped", "SFTPFile.seek", bad is None, sk.loc,
            "%d cases: SET/CUR/END x positions with and without read-ahead x targets equal to the logical / the transport position / elsewhere%s" % (
                nseek, "" if bad is None else "; first failing: " + bad))
+    # SEEK_END is measured from the file's size as the server reports it now (a size remembered on the client goes stale
+    # with truncate() and with other writers)
+    gs_ = prog.method("SFTPFile", "_get_size")
+    rvals = [r.value for r in walk_no_defs(gs_.node) if isinstance(r, ast.Return) and r.value is not None]
+    asks = [v for v in rvals if any(M.is_call(c, name="self.stat") for c in ast.walk(v))]
+    cached = [unparse(v) for v in rvals if any(isinstance(x, ast.Attribute) and x.attr == "_size" for x in ast.walk(v))]
+    chk.ob("R3.size-asked-from-the-server", "SFTPFile._get_size", bool(asks) and not cached, gs_.loc,
+           "returns %s" % [unparse(v) for v in rvals])
     tl = prog.method("SFTPFile", "tell")
     rvs = [r.value for r in walk_no_defs(tl.node) if isinstance(r, ast.Return) and r.value is not None]
     rt = [unparse(v) for v in rvs]
